@@ -158,9 +158,9 @@ def _parse_directive(st, ln, auto):
         tok = s[1:j]
         s = s[j + 1:].lstrip()
         k = None
-        mt = re.match(r"#(\d+)", s)
+        mt = re.match(r"#(\d+|\*)", s)
         if mt:
-            k = int(mt.group(1))
+            k = 0 if mt.group(1) == "*" else int(mt.group(1))
             s = s[mt.end():]
         return tok, k, s
 
@@ -542,14 +542,19 @@ def splice_fn(text, fs: FnSpec):
                 raise AnchorLost("%s: anchor `%s` not found" % (fs.path, tok))
             if k is None and len(occ) > 1:
                 raise AnchorLost("%s: anchor `%s` is ambiguous (%d sites)" % (fs.path, tok, len(occ)))
-            i = occ[(k or 1) - 1] if (k or 1) <= len(occ) else None
-            if i is None:
-                raise AnchorLost("%s: anchor `%s` #%d not found" % (fs.path, tok, k))
-            if kind == "before":
+            if k == 0:
+                sites = occ
+            else:
+                i = occ[(k or 1) - 1] if (k or 1) <= len(occ) else None
+                if i is None:
+                    raise AnchorLost("%s: anchor `%s` #%d not found" % (fs.path, tok, k))
+                sites = [i]
+            for i in sites:
+              if kind == "before":
                 p, _ = _stmt_start(m, i, sh.body_open + 1)
                 ind = _indent_at(text, p)
                 eds.append(Edit(p, p, "%s\n%s" % (c.text, ind), "S", c))
-            else:
+              else:
                 p = _stmt_end(m, i, sh.body_close)
                 ss, _ = _stmt_start(m, i, sh.body_open + 1)
                 ind = _indent_at(text, ss)
@@ -562,7 +567,10 @@ def splice_fn(text, fs: FnSpec):
             cl_groups.setdefault(c.args["n"], []).append(c)
     for n, cs in sorted(cl_groups.items()):
         if n < 1 or n > len(sh.closures):
-            raise AnchorLost("%s: closure %d not found (%d closures)" % (fs.path, n, len(sh.closures)))
+            # soft anchor: a closure that is no longer there needs no annotation; the function is
+            # still verified against its contract (a bypassed closure then fails a real obligation)
+            sh.soft_skipped = getattr(sh, "soft_skipped", []) + ["closure %d" % n]
+            continue
         cl = sh.closures[n - 1]
         for c in cs:
             if c.kind == "closure_ptype":
